@@ -14,6 +14,6 @@ git -C /repo worktree add --detach "$WT" HEAD -q || exit 2
 git -C "$WT" apply "$P" || { echo "patch does not apply"; git -C /repo worktree remove --force "$WT"; exit 2; }
 (cd /verif && VERIF_REPO=$WT VERIF_WORK=$W/work VERIF_EVIDENCE=$W/evidence VERIF_REPLAYS=$W/replays \
    timeout 3000 ./check $CHK --tier ${TIER:-quick} > $W/log 2>&1; echo "rc=$?" >> $W/log)
-[ -n "$KEEP" ] || { git -C /repo worktree remove --force "$WT"; rm -rf "$W/work/scratch_harness/target"; }
+[ -n "$KEEP" ] || { git -C /repo worktree remove --force "$WT"; rm -rf "$W/work"; }
 echo "== $TAG (check $CHK): $(grep -c '^VIOLATION' $W/log) violation lines, $(tail -1 $W/log)"
 grep -v '^KNOWN' $W/log | grep -v "^\[" | tail -6
